@@ -194,13 +194,15 @@ func runOneHistory(seed int64, maxOps int, parties *[2]party, yieldPm int) linHi
 	var gone atomic.Int32
 	syncEvery := 3 + int(r.next()%10)
 	single := runtime.GOMAXPROCS(0) == 1
-	barrier := func(round int) {
+	barrier := func(p *party, round int) {
 		ready.Add(1)
 		for n := 0; ready.Load() < int64(2*round) && gone.Load() == 0; n++ {
 			if single || n > 200000 {
+				p.waiting.Store(true)
 				runtime.Gosched()
 			}
 		}
+		p.waiting.Store(false)
 	}
 	var raw [2][]rawOp
 	var wg sync.WaitGroup
@@ -218,11 +220,11 @@ func runOneHistory(seed int64, maxOps int, parties *[2]party, yieldPm int) linHi
 			chunks[i] = appendChunk(nil, seed, i, 4)
 		}
 		defer gone.Add(1)
-		barrier(1)
+		barrier(p, 1)
 		k := 0
 		for i := 0; i < n0; i++ {
 			if i > 0 && i%syncEvery == 0 {
-				barrier(1 + i/syncEvery)
+				barrier(p, 1+i/syncEvery)
 			}
 			if rr.pm() < pDepth {
 				c := clock.Add(1)
@@ -254,10 +256,10 @@ func runOneHistory(seed int64, maxOps int, parties *[2]party, yieldPm int) linHi
 		defer func() { raw[1] = ops }()
 		var held []byte
 		defer gone.Add(1)
-		barrier(1)
+		barrier(p, 1)
 		for i := 0; i < n1; i++ {
 			if i > 0 && i%syncEvery == 0 {
-				barrier(1 + i/syncEvery)
+				barrier(p, 1+i/syncEvery)
 			}
 			x := rr.pm()
 			switch {
